@@ -7,6 +7,7 @@ import Q1t.Model.Sim
 import Q1t.Spec.Bits
 import Q1t.Spec.Register
 import Q1t.Spec.Conditional
+import Driver.SimStep
 /-! Driver for C07: one request per line, one answer per line (`model` and `spec` modes). -/
 open Q1t Q1t.Proto Q1t.RegProto Q1t.Bits Q1t.Register Q1t.Conditional
 
@@ -73,9 +74,66 @@ def condAnswer (r : CondReq) : String :=
       let finText := if r.hasFinal then " ".intercalate fin else "-"
       s!"ok counts {joinNats st'.counts} | states {" ".intercalate (st'.states.map showQs)} | reg {joinWords r.reg} | final {finText}"
 
+/-! ### `cstep`: one conditional operation on full state vectors
+
+`cstep <tag…> | cond <nc> <cbit>*nc <target> <k> <bit>*k <gate term> | <pre snapshot> | <pre register> | 0` with answer
+`ok | <post snapshot> | <post register>` (grammar of harness/src/sim.rs; the gate term carries the CURRENT values of all
+parameters).  Model mode: the simulator model executes the operation (`Q1t.SimStep.handleStep`).  Spec mode: per shot, the
+reference semantics `Spec.replayOp` - the gate's matrix on the shots whose selected bits spell the target (compared up to a
+global phase), every other shot's state untouched (compared exactly), register untouched. -/
+
+def expandIdx (counts : List Nat) : List Nat :=
+  (List.zip counts (List.range counts.length)).flatMap fun ck => List.replicate ck.1 ck.2
+
+def specCstep (fs : List (List String)) (ans : String) : String :=
+  match fs with
+  | [_, opToks, snap, regF, _] =>
+    match Q1t.SimParse.parseOp opToks, nats? regF with
+    | some (.cond control target g bits), some reg =>
+      match Q1t.SimParse.parseVecSnapshot reg.length snap with
+      | none => "skip"
+      | some pre =>
+        match Q1t.SimParse.fields ans with
+        | [["ok"], snap', regF'] =>
+          match Q1t.SimParse.parseVecSnapshot reg.length snap', nats? regF' with
+          | some post, some reg' =>
+            let n := pre.nrBits
+            let (pi, qi) := (expandIdx pre.counts, expandIdx post.counts)
+            if reg' != reg then "fail conditional-register-touched"
+            else if pi.length ≠ reg.length || qi.length ≠ reg.length || post.nrBits ≠ n then
+              "fail conditional-per-shot ranges-do-not-cover-the-shots"
+            else
+              let nonzero := fun (v : List Q1t.CFloat) => Q1t.SimStep.vnormSq v > 1e-18
+              let bad := (List.range reg.length).filter fun i =>
+                let ψ := pre.column (pi.getD i 0)
+                let φ := post.column (qi.getD i 0)
+                let w := reg.getD i 0
+                let isMatch := Q1t.Sim.controlWord control w == some target
+                match Spec.replayOp (P := Float) n nonzero (.cond control target g bits) ψ w w with
+                | [(e, _)] =>
+                  if isMatch then
+                    let ip := Q1t.CFloat.normSq (Q1t.SimStep.inner e φ)
+                    !(Float.abs (ip - Q1t.SimStep.vnormSq e * Q1t.SimStep.vnormSq φ) ≤ 2e-9 * Q1t.SimStep.vnormSq e
+                      && Float.abs (Q1t.SimStep.vnormSq φ - Q1t.SimStep.vnormSq e) ≤ 1e-9)
+                  else !(Q1t.SimStep.vdist2 ψ φ ≤ 1e-24)
+                | _ => true
+              match bad with
+              | [] => "ok"
+              | i :: _ =>
+                let isMatch := Q1t.Sim.controlWord control (reg.getD i 0) == some target
+                if isMatch then s!"fail conditional-per-shot matching-shot-{i}-does-not-hold-the-gate-applied-to-its-state ({bad.length} shots wrong)"
+                else s!"fail conditional-untouched non-matching-shot-{i}-changed ({bad.length} shots wrong)"
+          | _, _ => "fail conditional-per-shot unparsable-answer"
+        | _ => "fail conditional-per-shot valid-conditional-did-not-complete"
+    | _, _ => "fail bad-request"
+  | _ => "fail bad-request"
+
 def handle (line : String) : String :=
   let segs := splitBars (words line)
   match segs with
+  | ("cstep" :: _) :: _ => Q1t.SimStep.handleStep (Q1t.SimParse.fields line)
+  -- differential lines (C interface vs Rust API), computed by the harness: the expected answer is `same`
+  | ("ffisame" :: _) :: _ | ("ffierr" :: _) :: _ => "same"
   | ("ranges" :: cs) :: mask :: _ =>
     match nats? cs, mask.mapM bool? with
     | some cs, some m =>
@@ -167,7 +225,17 @@ def specCheck (line : String) : String :=
       match parseCond segs with
       | some r => specCond r ans
       | none => "fail bad-request"
+    | ("cstep" :: _) :: _ => specCstep (Q1t.SimParse.fields req) ans
+    | ("ffisame" :: _) :: _ =>
+      if ans.trimAscii.toString = "same" then "ok"
+      else s!"fail conditional-through-c-interface circuit built through the C interface behaves differently from the Rust-API circuit: {ans.take 120}"
+    | ("ffierr" :: _) :: _ =>
+      if ans.trimAscii.toString = "same" then "ok"
+      else s!"fail conditional-through-c-interface invalid control bits not refused alike: {ans.take 120}"
     | (kind :: _) :: _ =>
+      if kind.startsWith "cstep-unexpected" then
+        s!"fail conditional-run-did-not-complete a valid circuit with a conditional gate ended in {ans.take 60}"
+      else
       if kind.startsWith "condrun-unexpected" then
         s!"fail conditional-run-did-not-complete a valid circuit with a conditional gate ended in {ans.take 60}"
       else "fail bad-request"
